@@ -75,6 +75,10 @@ def native_runs(prop, tier):
             runs.append(("native debug-assertions + overflow checks", "rel-dbg", "small" if prop != "C09" else "quick", NCPU))
         if prop == "C01":
             runs.append(("native release code generation with -Coverflow-checks=on", "ovf", "small", NCPU))
+        if prop in ("C06", "C07", "C08", "C10", "C14", "C02", "C11"):
+            # a result that differs only in the debug profile (debug_assert!, overflow checks,
+            # cfg!(debug_assertions) guards) violates these statements just as well
+            runs.append(("native debug-assertions + overflow checks", "rel-dbg", "small", NCPU))
     else:
         runs = [("native release, runtime backend forced per call", "rel", "thorough", NCPU)]
         if prop in ("C01", "C09", "C03", "C04", "C05", "C17", "C02"):
